@@ -43,6 +43,8 @@ type Program struct {
 	inlRegions map[*ssa.Function][]*InlRegion
 
 	globalRx map[*ssa.Global]string // unexported package-level regexps of the module, by pattern
+
+	nonNegFields map[any]bool // integer fields that only ever hold non-negative values (loops.go)
 }
 
 // GlobalRegexp returns the pattern of an unexported package-level variable of the module that
